@@ -171,9 +171,20 @@ func checkC01(e *RunEnv) *CheckResult {
 			t := []string{"leftover-tmp"}
 			cs = append(cs, Case{Base: base, BaseName: "S0", BaseSeed: seedS0(), Steps: []Step{{Op: "write", Path: "f", Data: p}, Write(".goit/objects/"+id[:2]+"/"+id[2:]+".tmp", "partial"), Run("add", "f").WithTags(t...), Run("cat-file", "-t", id).WithTags(t...), Run("cat-file", "-p", id).WithTags(t...)}})
 		}
+		// a branch whose name is the id of the blob: cat-file of that id is still the blob
+		for _, p := range [][]byte{[]byte("named like a branch\n")} {
+			id := BlobID(p)
+			cs = append(cs, Case{Base: base, BaseName: "S0", BaseSeed: seedS0(), Steps: []Step{{Op: "write", Path: "f", Data: p}, Run("add", "f"), Run("commit", "-m", "m"), Run("branch", id), Run("branch", "HEAD"),
+				Run("cat-file", "-t", id).WithTags("branch-named-like-id"), Run("cat-file", "-p", id).WithTags("branch-named-like-id")}})
+		}
 		// tree objects: 150 and 900 entries (more than 4 KiB / 32 KiB of tree data), entry names of 250 and 255 bytes
 		for _, n := range []int{150, 900} {
 			files := map[string]string{"f": "f\n", strings.Repeat("n", 255): "255\n", "big/" + strings.Repeat("m", 250): "250\n"}
+			deep := "deep"
+			for i := 1; i <= 40; i++ {
+				deep += fmt.Sprintf("/l%d", i)
+			}
+			files[deep+"/leaf"] = "forty levels down\n"
 			for i := 0; i < n; i++ {
 				files[fmt.Sprintf("big/file-%04d", i)] = fmt.Sprintf("content %d\n", i)
 			}
